@@ -36,6 +36,7 @@ func (x *Exec) call(fr *Frame, st *State, c *ssa.CallCommon, site ssa.Instructio
 	sig := c.Signature()
 	rt := resultType(sig)
 	x.curTrail = recvTrail(c)
+	x.curSite = site
 	if c.IsInvoke() {
 		recv, err := x.val(fr, st, c.Value)
 		if err != nil {
@@ -125,6 +126,16 @@ func (x *Exec) call(fr *Frame, st *State, c *ssa.CallCommon, site ssa.Instructio
 			}
 		}
 	}
+	// a value of a named function type that carries a contract ("func type pkg.T")
+	if n, ok := types.Unalias(c.Value.Type()).(*types.Named); ok && n.Obj().Pkg() != nil {
+		key := "type:" + n.Obj().Pkg().Path() + "." + n.Obj().Name()
+		if fc := x.cs.Funcs[key]; fc != nil {
+			if err := x.callSite(fr, st, n.Obj().Name(), nil, sig, fc, args, pos); err != nil {
+				return Val{}, err
+			}
+			return x.callContract(fr, st, fc, nil, sig, args, rt, pos, n.Obj().Name())
+		}
+	}
 	return x.unknownFuncCall(fr, st, c, fv, args, rt, pos)
 }
 
@@ -183,6 +194,13 @@ func recvTypeName(t types.Type) string {
 func (x *Exec) callSite(fr *Frame, st *State, what string, callee *ssa.Function, sig *types.Signature, fc *FuncContract, args []Val, pos token.Pos) error {
 	x.calls[what]++
 	tag := fmt.Sprintf("%s#%d", what, x.calls[what])
+	if fr != nil && fr.top && x.curSite != nil {
+		if t, ok := x.siteTags[x.curSite]; ok {
+			tag = t
+		}
+	} else if fr != nil && !fr.top {
+		tag = fr.fn.Name() + "." + tag
+	}
 	x.curTag = tag
 	top := x.topFC
 	if top == nil {
@@ -248,9 +266,48 @@ func (x *Exec) opaqueCall(fr *Frame, st *State, key string, rt types.Type, args 
 		}
 	}
 	u.Trust(fmt.Sprintf("opaque call (no contract; whole heap havocked at the call): %s", key))
-	x.havocAll(st)
+	x.havocAllAtCall(fr, st, args)
 	r := u.FreshVal("opaque", rt)
 	return r, nil
+}
+
+// havocAllAtCall: a callee whose frame is "heap" may change everything it can reach — but not the caller's
+// captured local variables (heap cells whose address only the caller's own closures hold), unless one of those
+// closures is handed to the callee.
+func (x *Exec) havocAllAtCall(fr *Frame, st *State, args []Val) {
+	type saved struct {
+		c frameCell
+		v Val
+	}
+	var keep []saved
+	passed := map[string]bool{}
+	for _, a := range args {
+		if a.F != nil {
+			for _, b := range a.F.Bindings {
+				if b.P == nil && len(b.S) == 1 {
+					passed[b.S[0].S] = true
+				}
+			}
+		}
+		if a.P == nil && a.F == nil && len(a.S) == 1 {
+			passed[a.S[0].S] = true
+		}
+	}
+	for f := fr; f != nil; f = f.parent {
+		for _, c := range f.cells {
+			if passed[c.ref.S] || classify(c.t) == KStruct || classify(c.t) == KFunc {
+				continue
+			}
+			keep = append(keep, saved{c, x.u.LoadAddr(st, Addr{Kind: ACell, T: c.t, Ref: c.ref})})
+		}
+	}
+	x.havocAll(st)
+	for _, k := range keep {
+		if k.v.P != nil || k.v.F != nil {
+			continue
+		}
+		x.u.StoreAddr(st, True, Addr{Kind: ACell, T: k.c.t, Ref: k.c.ref}, k.v)
+	}
 }
 
 func (x *Exec) havocAll(st *State) {
@@ -272,7 +329,7 @@ func (x *Exec) havocAll(st *State) {
 
 func (x *Exec) unknownFuncCall(fr *Frame, st *State, c *ssa.CallCommon, fv Val, args []Val, rt types.Type, pos token.Pos) (Val, error) {
 	x.u.Trust("call through an unknown function value: arbitrary result, whole heap havocked")
-	x.havocAll(st)
+	x.havocAllAtCall(fr, st, args)
 	return x.u.FreshVal("dyn", rt), nil
 }
 
@@ -464,6 +521,7 @@ func (x *Exec) callContract(fr *Frame, st *State, fc *FuncContract, callee *ssa.
 	st.Alloc = na
 	u.havocAlloc = na
 	// havoc the frame
+	x.curCallFrame, x.curCallArgs = fr, args
 	if err := x.havocModifies(env, st, fc); err != nil {
 		return Val{}, engineErr("call %s: %v", fc.Key, err)
 	}
@@ -719,7 +777,73 @@ func (x *Exec) selectInstr(fr *Frame, st *State, t *ssa.Select) error {
 	for i := 2; i < tt.Len(); i++ {
 		out.S = append(out.S, u.FreshVal("selrecv", tt.At(i).Type()).S...)
 	}
-	u.Trust("select: nondeterministic choice among its cases; received values arbitrary")
+	u.Trust("select: nondeterministic choice among its cases; received values arbitrary (up to declared channel invariants)")
+	// channel invariants ("recv field (T).ch ensures e") for the receive cases
+	pos := 2
+	for ci, sc := range t.States {
+		if sc.Dir != types.RecvOnly {
+			continue
+		}
+		et := tt.At(pos).Type()
+		k := len(u.Layout(et))
+		// slot offset of this received value
+		off := 2
+		for j := 2; j < pos; j++ {
+			off += len(u.Layout(tt.At(j).Type()))
+		}
+		rv := Val{T: et, S: out.S[off : off+k]}
+		if g, ok, err := x.recvInvariant(fr, st, sc.Chan, rv); err != nil {
+			return err
+		} else if ok {
+			u.Assume(Implies(And(st.PC, Eq(idx, u.IntC(int64(ci)))), g))
+		}
+		u.assumeValExisting(st, rv)
+		pos++
+	}
 	fr.regs[t] = out
 	return nil
+}
+
+// chanField: if ch is a load of a struct field, returns the owner type and field name.
+func chanField(ch ssa.Value) (types.Type, string, bool) {
+	ld, ok := ch.(*ssa.UnOp)
+	if !ok {
+		return nil, "", false
+	}
+	fa, ok := ld.X.(*ssa.FieldAddr)
+	if !ok {
+		return nil, "", false
+	}
+	owner := fa.X.Type().Underlying().(*types.Pointer).Elem()
+	return owner, structOf(owner).Field(fa.Field).Name(), true
+}
+
+// recvInvariant evaluates the declared invariant of the channel (if any) for a value.
+func (x *Exec) recvInvariant(fr *Frame, st *State, ch ssa.Value, v Val) (Term, bool, error) {
+	owner, fname, ok := chanField(ch)
+	if !ok {
+		return Term{}, false, nil
+	}
+	for _, ri := range x.cs.Recvs {
+		if ri.Field != fname {
+			continue
+		}
+		pk := x.prog.ByPath[ri.Pkg]
+		if pk == nil {
+			continue
+		}
+		ot, err := x.prog.LookupType(ri.Owner, pk.Types)
+		if err != nil || !types.Identical(types.Unalias(ot), types.Unalias(owner)) {
+			continue
+		}
+		env := x.envFor(fr, st, fr.entry)
+		env.names["value"] = v
+		g, err := env.Bool(ri.Clause.E)
+		if err != nil {
+			return Term{}, false, engineErr("recv invariant of %s.%s: %v", ri.Owner, ri.Field, err)
+		}
+		x.u.Trust("channel invariant (rely/guarantee): values received from " + ri.Owner + "." + ri.Field + " satisfy: " + ri.Clause.Text)
+		return g, true, nil
+	}
+	return Term{}, false, nil
 }
